@@ -113,6 +113,32 @@ def run_types(ck, facts, tier, only_types):
             ck.rules[rid]["floor"] = min(ck.rules[rid]["floor"], 1)          # the floors are those of the full type list
 
 
+# types whose constructors validate (C20 R20.6) or that are rebuilt through a validating constructor on loading: their loaders may refuse
+CONSTRAINED = {"dual::dual::Dual", "dual::dual::Dual2", "fx::rates::ccy::Ccy", "fx::rates::fxpair::FXPair", "fx::rates::FXRates", "splines::spline::PPSpline",
+               "calendars::calendar::NamedCal"}
+
+
+def refusing_paths(facts, conv, mpath, mt):
+    """Number of Err / aborting leaves of the data-model conversion evaluated on an opaque stored object ("?" when it cannot be evaluated)."""
+    import cel, paths
+    from cel import Sym, Rec
+    mfields = [x["name"] for x in mt["variants"][0]["fields"]]
+    stored = {n: Sym("stored", n) for n in mfields}
+    tuple_like = all(n.isdigit() for n in mfields)
+    model = Sym("ctor", mpath.rsplit("::", 1)[-1], *[stored[n] for n in mfields]) if tuple_like else Rec(mpath, dict(stored))
+    try:
+        got = cel.Ev(facts).apply_fn(conv["fn"], [model], 0)
+    except cel.Unsupported:
+        return "?"
+    n = 0
+    for c_, v in paths.flatten(got):
+        if isinstance(v, cel.EarlyRet):
+            v = v.value
+        if isinstance(v, Sym) and (v.tag[:2] == ("ctor", "Err") or v.tag[:1] == ("diverges",)):
+            n += 1
+    return n
+
+
 def copies_by_evaluation(facts, conv, adt, mpath, mt, tf):
     """Does every Ok path of the conversion return a value of `adt` whose stored fields are the model's fields, unchanged (a field listed in NORMALISED may
     have passed through its normalising method)? Judged on the symbolically evaluated body, with each model field an opaque stored value."""
@@ -261,6 +287,13 @@ def run(ck, facts, tier, only_types=None):
         c = conv[0]
         pname = c["params"][0].get("name")
         cwhere = "%s:%d" % (c["file"], c["line"])
+        if adt.split("<")[0] not in CONSTRAINED:
+            # a type without a shape invariant: every stored object is well-formed, so its loader has nothing to refuse ("for all finite floating-point contents")
+            ref = refusing_paths(facts, c, mpath, mt)
+            s11 = ck.rule("S16.11", "the loader of a type that has no shape invariant (curves, plain and union calendars, quotes) refuses nothing: its conversion has no Err "
+                                    "and no aborting path — whatever was saved loads", floor=1)
+            ck.check(s11, adt, ref == 0, "the conversion from %s can refuse or abort (%s path(s)) although the type constrains nothing: a saved object may not load" % (model, ref),
+                     cwhere, sample="no refusing path")
         if skipped:
             want = REBUILT[(adt, skipped[0])]
             calls = [e for e in hir.walk(c["body"]) if e.get("k") == "call" and re.search(want, e["f"].get("def", "") or "")]
